@@ -29,8 +29,10 @@ type c04Case struct {
 	Consumer  string    `json:"consumer"`        // streams | mux
 	Delay     []int     `json:"delay,omitempty"` // per received envelope (cyclic): number of yields (virtual) / 100 µs units (real)
 	Real      bool      `json:"real,omitempty"`
-	PC        []int     `json:"pc,omitempty"`    // noise next to the traffic: one client goroutine issues a ProcessCommand per entry and cancels it after that many yields; the server's consumer answers each
-	PCDup     bool      `json:"pcDup,omitempty"` // ... twice
+	ReadLimit int64     `json:"readLimit,omitempty"` // TCP transports: configured read limit (0 = default)
+	Trace     bool      `json:"trace,omitempty"`     // TCP transports: a trace writer is configured
+	PC        []int     `json:"pc,omitempty"`        // noise next to the traffic: one client goroutine issues a ProcessCommand per entry and cancels it after that many yields; the server's consumer answers each
+	PCDup     bool      `json:"pcDup,omitempty"`     // ... twice
 }
 
 type c04Side interface {
@@ -312,6 +314,12 @@ func judgeC04(c *c04Case, obs *c04Obs, o *Outcome) {
 	o.NonTrivial = (len(kinds) >= 2 && senders >= 2) || both || c.ChanBuf == 0
 	if len(c.PC) > 0 {
 		o.Class("with-processcommand-noise")
+	}
+	if c.ReadLimit != 0 {
+		o.Class("small-read-limit")
+	}
+	if c.Trace {
+		o.Class("traced")
 	}
 	if len(obs.SendErr) > 0 {
 		// while the session stays established every send must succeed
